@@ -52,6 +52,15 @@ PLACES = {
     'file-stdout-from': (IPHASES, ['file out-c19.txt = -stdout-from ' + PGM]),
     'file-stdout-from-shell': (IPHASES, ['file out-c19.txt = -stdout-from ' + PGM_SHELL]),
     'env-stdout-from': (IPHASES, ['env V_C19 = -stdout-from ' + PGM]),
+    # the variants of a program as text source: other channel, exit code ignored (the program's other std file is
+    # then something else than a named file)
+    'file-stderr-from': (IPHASES, ['file out-c19.txt = -stderr-from ' + PGM]),
+    'file-stdout-from-ignore-exit-code': (IPHASES, ['file out-c19.txt = -stdout-from -ignore-exit-code ' + PGM]),
+    'file-stderr-from-ignore-exit-code': (IPHASES, ['file out-c19.txt = -stderr-from -ignore-exit-code ' + PGM_SHELL]),
+    'equals-stderr-from-ignore-exit-code': (['assert'], ['stdout equals -stderr-from -ignore-exit-code ' + PGM]),
+    'run-ignore-exit-code': (IPHASES, ['run -ignore-exit-code ' + PGM]),
+    'transformer-run-ignore-exit-code': (IPHASES, ['file out-c19.txt = "x" -transformed-by run -ignore-exit-code '
+                                                   + PGM]),
     'transformer-run': (IPHASES, ['file out-c19.txt = "x" -transformed-by run ' + PGM]),
     'stdin-stdout-from': (['setup'], ['stdin = -stdout-from ' + PGM]),
     'equals-stdout-from': (['assert'], ['stdout equals -stdout-from ' + PGM]),
